@@ -146,4 +146,174 @@ func init() {
 var vmSubsts = []Subst{
 	{File: "internal/runtime/vm/vm.go", Old: "v.re[index].FindStringSubmatch(v.input.Line)", New: "verifFindStringSubmatch(v.re[index], v.input.Line)"},
 	{File: "internal/runtime/vm/vm.go", Old: "v.re[index].FindStringSubmatch(line)", New: "verifFindStringSubmatch(v.re[index], line)"},
+	{File: "internal/runtime/vm/vm.go", Old: "time.Now()", New: "verifNow()"},
+}
+
+// ---- VM program corpus ----
+
+type vmProg struct {
+	Name  string
+	Src   string
+	Quick bool
+}
+
+func vmCorpus() []vmProg {
+	return []vmProg{
+		{"inc", "counter c\n/K1=(\\d+)/ {\n  c++\n}\n", true},
+		{"arith", "counter c\ngauge g\n/K1=(\\d+)/ {\n  c += $1\n  g = $1 * 2 + 1\n}\n", true},
+		{"dim", "counter c by k\n/K1=(\\w+)/ {\n  c[$1]++\n}\n", true},
+		{"elseother", "counter a\ncounter b\ncounter o\n/K1=(\\d+)/ {\n  a++\n} else {\n  b++\n}\notherwise {\n  o++\n}\n", true},
+		{"nestedother", "counter a\ncounter b\ncounter c\n/K1=(\\d+)/ {\n  a++\n} else {\n  /K2=(\\d+)/ {\n    b++\n  }\n  otherwise {\n    c++\n  }\n}\n", true},
+		{"del", "counter c by k\n/K1=(\\w+)/ {\n  c[$1]++\n}\n/K2=(\\w+)/ {\n  del c[$1]\n}\n/K3=(\\w+)/ {\n  del c[$1] after 1h\n}\n", true},
+		{"floatcap", "gauge g\n/K1=(\\d+\\.\\d+)/ {\n  g = $1\n}\n", true},
+		{"text", "text t\n/K1=(\\S+)/ {\n  t = $1\n}\n", true},
+		{"div", "gauge g\ngauge h\n/K1=(\\d+) K2=(\\d+)/ {\n  g = $1 / $2\n  h = $1 % $2\n}\n", true},
+		{"shift", "gauge g\ngauge h\n/K1=(\\d+) K2=(\\d+)/ {\n  g = $1 << $2\n  h = $1 >> $2\n}\n", false},
+		{"cmp", "counter c\n/K1=(\\d+)/ && $1 > 5 {\n  c++\n}\n", true},
+		{"logic", "counter c\ncounter d\n/K1=(\\d+)/ || /K2=(\\d+)/ {\n  c++\n}\n/K1=(\\d+)/ && /K2=(\\d+)/ {\n  d++\n}\n", false},
+		{"len", "gauge g\n/K1=(\\w+)/ {\n  g = len($1)\n}\n", false},
+		{"tolower", "counter c by k\n/K1=(\\w+)/ {\n  c[tolower($1)]++\n}\n", false},
+		{"strtol", "gauge g\n/K1=(\\w+)/ {\n  g = strtol($1, 16)\n}\n", false},
+		{"conv", "gauge g\ngauge f\ntext s\n/K1=(\\S+) K2=(\\d+)/ {\n  g = int($1)\n  f = float($1)\n  s = string($2)\n}\n", true},
+		{"settime", "gauge g\n/K1=(\\d+)/ {\n  settime($1)\n  g = timestamp()\n}\n", true},
+		{"settimelen", "gauge g\n/K1=(\\w+)/ {\n  settime(len($1))\n  g = timestamp()\n}\n", true},
+		{"strptime", "gauge g\n/K1=(\\S+)/ {\n  strptime($1, \"2006-01-02\")\n  g = timestamp()\n}\n", true},
+		{"strptime2", "gauge g\ngauge h\n/K1=(\\S+)/ {\n  strptime($1, \"20060102\")\n  g = timestamp()\n}\n/K2=(\\S+)/ {\n  strptime($1, \"02012006\")\n  h = timestamp()\n}\n", true},
+		{"stop", "counter a\ncounter b\n/K1=(\\d+)/ {\n  a++\n  stop\n}\n/K2=(\\d+)/ {\n  b++\n}\n", true},
+		{"deco", "counter a\ncounter b\ndef deco {\n  /K1=(\\d+)/ {\n    a++\n    next\n  }\n}\n@deco {\n  b++\n}\n", true},
+		{"filename", "counter c by f\n/K1=(\\d+)/ {\n  c[getfilename()]++\n}\n", false},
+		{"histo", "histogram h buckets 1, 2, 4\n/K1=(\\d+)/ {\n  h = $1\n}\n", false},
+		{"smatch", "counter c\n/K1=(\\w+)/ {\n  $1 =~ /a/ {\n    c++\n  }\n}\n", false},
+		{"subst", "text t\n/K1=(\\w+)/ {\n  t = subst(\"a\", \"b\", $1)\n}\n", false},
+		{"pow", "gauge g\n/K1=(\\d+)/ {\n  g = $1 ** 2\n}\n", false},
+		{"bitops", "gauge g\n/K1=(\\d+) K2=(\\d+)/ {\n  g = ($1 & $2) | ($1 ^ 3)\n}\n", false},
+		{"capother", "counter c by k\n/K1=(\\w+)/ {\n  c[$1]++\n} else {\n  c[$1]++\n}\n", true},
+	}
+}
+
+var capClass = map[string]int{
+	`[0-9]+`: 0, `-?[0-9]+`: 1, `[0-9]+\.[0-9]+`: 2, `[0-9A-Z_a-z]+`: 3, `[^\t-\n\f-\r ]+`: 4, `[^\t\n\f\r ]+`: 4,
+	`(?-s:.*)`: 5, `(?-s:.+)`: 5, `[a-z]+`: 6,
+}
+
+func capClasses(pattern string) ([]int, error) {
+	re, err := syntaxParse(pattern)
+	if err != nil {
+		return nil, err
+	}
+	var out []int
+	var walk func(r *syntaxRegexp) error
+	walk = func(r *syntaxRegexp) error {
+		if r.Op == syntaxOpCapture {
+			s := r.Sub[0].String()
+			c, ok := capClass[s]
+			if !ok {
+				return fmt.Errorf("capture group %q (normalised %q) has no symbolic class", pattern, s)
+			}
+			out = append(out, c)
+		}
+		for _, s := range r.Sub {
+			if err := walk(s); err != nil {
+				return err
+			}
+		}
+		return nil
+	}
+	if err := walk(re); err != nil {
+		return nil, err
+	}
+	return out, nil
+}
+
+// vmGen compiles the corpus (normal pipeline, optimisation on) and
+// generates object constructors, capture tables and the entry functions of
+// the given families.
+func vmGen(progs []vmProg, families map[string]string) (map[string]string, error) {
+	var ins []bridgeIn
+	for _, pr := range progs {
+		ins = append(ins, bridgeIn{Name: pr.Name, Src: pr.Src})
+	}
+	outs, err := runBridge(ins)
+	if err != nil {
+		return nil, err
+	}
+	var b strings.Builder
+	b.WriteString(genHeader())
+	for i, pr := range progs {
+		o := outs[i]
+		if o.Errors != "" {
+			return nil, fmt.Errorf("corpus program %s is rejected by the compiler: %s", pr.Name, o.Errors)
+		}
+		b.WriteString(genObjectFunc("verifObj_"+pr.Name, o, nil))
+		fmt.Fprintf(&b, "var verifCaps_%s = [][]int{", pr.Name)
+		for _, re := range o.Regexps {
+			cs, err := capClasses(re)
+			if err != nil {
+				return nil, err
+			}
+			b.WriteString("{")
+			for _, c := range cs {
+				fmt.Fprintf(&b, "%d, ", c)
+			}
+			b.WriteString("}, ")
+		}
+		b.WriteString("}\n\n")
+		for fam, fn := range families {
+			fmt.Fprintf(&b, "func Harness%s_%s() { %s(verifObj_%s, verifCaps_%s, %q) }\n\n", fam, pr.Name, fn, pr.Name, pr.Name, pr.Name)
+		}
+	}
+	return map[string]string{"vm_objects.go": b.String()}, nil
+}
+
+func vmJobs(tier, fam, fn string, caplen int, only func(vmProg) bool) []JobDef {
+	var progs []vmProg
+	for _, pr := range vmCorpus() {
+		if (tier == "thorough" || pr.Quick) && (only == nil || only(pr)) {
+			progs = append(progs, pr)
+		}
+	}
+	gen, err := vmGen(progs, map[string]string{fam: fn})
+	if err != nil {
+		return []JobDef{{Name: "bridge-failed: " + err.Error(), Pkg: vmPkg, Dir: "internal/runtime/vm", Entry: "missing"}}
+	}
+	var jobs []JobDef
+	for _, pr := range progs {
+		jobs = append(jobs, JobDef{Name: fam + "-" + pr.Name, Pkg: vmPkg, Dir: "internal/runtime/vm",
+			Harness: []string{"vm/vmlib.go", "vm/c04.go"}, GenFiles: gen,
+			EngineOnly: []string{"vm/vm_engine.go"}, NativeOnly: []string{"vm/vm_native.go"},
+			Entry: "Harness" + fam + "_" + pr.Name, Substs: vmSubsts, Params: p("caplen", caplen),
+			Bound: fmt.Sprintf("captures up to %d bytes; ", caplen) + "program " + pr.Name + ": " + strings.ReplaceAll(strings.TrimSpace(pr.Src), "\n", " ; ") + " -- one line; every pattern independently matches or not; captures 1..2 symbolic bytes of the group's class; every metric holds an arbitrary value (dimensioned: zero or one label set with a symbolic one-letter label)"})
+	}
+	return jobs
+}
+
+func init() {
+	as := append(append([]string{
+		"match outcomes of different patterns are independent (the corpus uses disjoint marker tokens K1= K2= ...)",
+		"strconv.ParseInt is an exact engine model for <=18 bytes base 10; strconv.ParseFloat, time.Parse, Time.Year, Time.AddDate are uninterpreted with native refinement of counterexamples; locations are not modelled",
+	}, vmAssumptions...), baseAssumptions...)
+	register(&CheckDef{ID: "C04", Level: "model_checking", Only: []string{"C04."}, Assumptions: as,
+		Jobs:    func(tier string) []JobDef { return vmJobs(tier, "VM04", "vmCheckNoFault", 2, nil) },
+		Outside: []string{"programs outside the corpus (program structure is enumerated, not symbolic)", "captures longer than 2 bytes", "more than one line (see C05)"}})
+	register(&CheckDef{ID: "C05", Level: "model_checking", Only: []string{"C05."}, Assumptions: as,
+		Jobs: func(tier string) []JobDef {
+			if tier == "thorough" {
+				return vmJobs(tier, "VM05", "vmCheckHistory", 2, nil)
+			}
+			return vmJobs(tier, "VM05", "vmCheckHistory", 1, func(pr vmProg) bool { return pr.Name != "conv" })
+		},
+		Outside: []string{"histories longer than one earlier line (the carried state after one line is the carried state the next line sees; longer histories can only add memo entries of the same form)", "timestamps taken from the wall clock are compared up to one hour", "programs outside the corpus"}})
+}
+
+func init() {
+	as := append(append([]string{
+		"expvar is a counter table; per-unit claim: log_lines_total per LineReader, prog_runtime_errors_total per processed line; the end-to-end reconciliation (lines_total vs all streams) is a whole-program property and outside",
+	}, vmAssumptions...), baseAssumptions...)
+	register(&CheckDef{ID: "C25", Level: "model_checking", Only: []string{"C25."}, Assumptions: as,
+		Jobs: func(tier string) []JobDef {
+			jobs := checks["C15"].Jobs(tier)
+			jobs = append(jobs, vmJobs(tier, "VM04", "vmCheckNoFault", 2, nil)...)
+			return jobs
+		},
+		Outside: []string{"lines_total vs the sum over all streams (whole program)", "prog_loads_total / prog_unloads_total / prog_load_errors_total (loader part, pending)", "log_count"}})
 }
